@@ -43,9 +43,11 @@ package manifest
 //@ func (*Permission).IsAllowed$1
 //@ ensures result == keys.keyEq(contractG, manifestG.PublicKey)
 
+//@ spec permitted(m *Manifest, h util.Uint160, toCall *Manifest, method string) bool = exists(i, 0, len(m.Permissions), allowed(m.Permissions[i], h, toCall, method))
 //@ func (*Manifest).CanCall
-//@ requires m != nil && toCall != nil && forall(i, 0, len(m.Permissions), wfDesc(m.Permissions[i].Contract))
-//@ ensures[exists] result == exists(i, 0, len(m.Permissions), allowed(m.Permissions[i], hash, toCall, method))
+//@ requires m != nil && toCall != nil
+//@ requires[typeinv] forall(i, 0, len(m.Permissions), wfDesc(m.Permissions[i].Contract))
+//@ ensures[exists] result == permitted(m, hash, toCall, method)
 
 //@ func (*Manifest).CanCall$1
 //@ requires toCall != nil && wfDesc(p.Contract)
